@@ -243,11 +243,12 @@ fn run_case<'a>(ctx: &'a Ctx, case: u64, acc: &'a mut Acc) -> CaseFut<'a> {
         let d = Identity::new(seed, 62); // disabled after one day
         let o = Identity::new(seed, 63); // outsider
         let star = Identity::new(seed, 64); // wildcard own right on every entity
+        let mv = Identity::new(seed, 65); // member of both rooms, disabled in the second room after one day
         let r = |e: &str, own, all| RightSpec { entity: e.to_string(), own, all };
         let spec = RoomSpec {
             admins: vec![(a.id.vkey.clone(), true)],
             groups: vec![
-                GroupSpec { name: "own".into(), users: vec![(w.vkey.clone(), true), (d.vkey.clone(), true), (v.id.vkey.clone(), true)], user_admins: vec![], rights: vec![r("Person", true, false), r("Pet", true, false)] },
+                GroupSpec { name: "own".into(), users: vec![(w.vkey.clone(), true), (d.vkey.clone(), true), (v.id.vkey.clone(), true), (mv.vkey.clone(), true)], user_admins: vec![], rights: vec![r("Person", true, false), r("Pet", true, false)] },
                 GroupSpec { name: "all".into(), users: vec![(x.vkey.clone(), true)], user_admins: vec![], rights: vec![r("Person", true, true), r("Pet", true, true)] },
                 GroupSpec { name: "star".into(), users: vec![(star.vkey.clone(), true)], user_admins: vec![], rights: vec![r("*", true, false)] },
             ],
@@ -255,13 +256,14 @@ fn run_case<'a>(ctx: &'a Ctx, case: u64, acc: &'a mut Acc) -> CaseFut<'a> {
         let mut room: RoomHandle = a.create_room(&spec).await.unwrap();
         let spec2 = RoomSpec {
             admins: vec![(a.id.vkey.clone(), true)],
-            groups: vec![GroupSpec { name: "g".into(), users: vec![(v.id.vkey.clone(), true), (w.vkey.clone(), true)], user_admins: vec![], rights: vec![r("*", true, true)] }],
+            groups: vec![GroupSpec { name: "g".into(), users: vec![(v.id.vkey.clone(), true), (w.vkey.clone(), true), (mv.vkey.clone(), true)], user_admins: vec![], rights: vec![r("*", true, true)] }],
         };
-        let room2 = a.create_room(&spec2).await.unwrap();
+        let mut room2 = a.create_room(&spec2).await.unwrap();
         // D is disabled one day later
         t += DAY;
         clock_set(t);
         a.edit_room(&mut room, &RoomEdit::User(0, d.vkey.clone(), false)).await.unwrap();
+        a.edit_room(&mut room2, &RoomEdit::User(0, mv.vkey.clone(), false)).await.unwrap();
         let t_disabled = t;
         t += 100;
         clock_set(t);
@@ -296,7 +298,22 @@ fn run_case<'a>(ctx: &'a Ctx, case: u64, acc: &'a mut Acc) -> CaseFut<'a> {
             acc.inconclusive(e);
             return;
         }
+        // rows of the second room, stored by the victim: candidates for a move into the room under test
+        let w_r2 = node(uid(&mut rng), room2.id, "0", "{\"32\":\"w row in R2\"}".into(), t1, t1, &w);
+        let mv_r2 = node(uid(&mut rng), room2.id, "0", "{\"32\":\"mv row in R2\"}".into(), t1, t1, &mv);
+        let seed2 = vec![
+            Offered { kind: "honest-own-row", should_store: true, item: Item::N(w_r2.clone()) },
+            Offered { kind: "honest-own-row", should_store: true, item: Item::N(mv_r2.clone()) },
+        ];
+        if let Err(e) = serve(&v, room2.id, &seed2, &mut rng).await {
+            acc.inconclusive(e);
+            return;
+        }
         let s0 = v.snapshot().await;
+        if !seed2.iter().all(|o| present(&s0, &o.item)) {
+            acc.inconclusive("seed rows of the second room were not stored");
+            return;
+        }
         if !seed_items.iter().all(|o| present(&s0, &o.item)) {
             acc.inconclusive("seed rows were not stored (harness serving problem or refused honest rows)");
             return;
@@ -318,6 +335,17 @@ fn run_case<'a>(ctx: &'a Ctx, case: u64, acc: &'a mut Acc) -> CaseFut<'a> {
         pool.push(mk("row-dated-before-the-room", model.can(&w.vkey, "Person", T0 - DAY, Right::Own), Item::N(node(uid(&mut rng), room.id, "0", "{\"32\":\"early\"}".into(), T0 - DAY, T0 - DAY, &w))));
         pool.push(mk("foreign-row-replaced-with-own-right-only", false, Item::N(node(px.id, room.id, "0", "{\"32\":\"w over x\"}".into(), t1, t2, &w))));
         pool.push(mk("foreign-row-replaced-with-all-right", true, Item::N(node(pw.id, room.id, "0", "{\"32\":\"x over w\"}".into(), t1, t2 + 1, &x))));
+        // a row changes room: its author needs the right in the room it leaves as well, at the date of the new version
+        pool.push(mk(
+            "row-moved-in-from-another-room-by-an-author-entitled-in-both",
+            model.can(&w.vkey, "Person", t2, Right::Own) && room2.model.can(&w.vkey, "Person", t2, Right::Own),
+            Item::N(node(w_r2.id, room.id, "0", "{\"32\":\"w moved in\"}".into(), t1, t2, &w)),
+        ));
+        pool.push(mk(
+            "row-moved-in-from-a-room-where-its-author-has-lost-the-right",
+            model.can(&mv.vkey, "Person", t2, Right::Own) && room2.model.can(&mv.vkey, "Person", t2, Right::Own),
+            Item::N(node(mv_r2.id, room.id, "0", "{\"32\":\"mv moved in\"}".into(), t1, t2, &mv)),
+        ));
         pool.push(mk("row-of-another-room", false, Item::N(node(uid(&mut rng), room2.id, "0", "{\"32\":\"other room\"}".into(), t2, t2, &w))));
         pool.push(mk("unknown-entity", false, Item::N(node(uid(&mut rng), room.id, "9.9", "{\"32\":\"?\"}".into(), t2, t2, &x))));
         pool.push(mk("entity-without-right", false, Item::N(node(uid(&mut rng), room.id, "2.0", "{\"32\":\"thing\"}".into(), t2, t2, &w))));
@@ -409,6 +437,10 @@ fn run_case<'a>(ctx: &'a Ctx, case: u64, acc: &'a mut Acc) -> CaseFut<'a> {
             if n.room_id != Some(room.id) {
                 match after.nodes.get(k) {
                     Some(m) if crate::snapshot::node_sig(m) == crate::snapshot::node_sig(n) => {}
+                    // an entitled move into this room replaces the row of the other room: decided by the per-row verdict above
+                    Some(m) if batch.iter().any(|o| o.should_store && matches!(&o.item, Item::N(x) if x._signature == m._signature)) => {}
+                    // an unentitled one is reported by the per-row verdict, once
+                    Some(m) if batch.iter().any(|o| matches!(&o.item, Item::N(x) if x._signature == m._signature)) => {}
                     _ => {
                         acc.violation(
                             "C02/row-of-another-room-or-without-room-changed-by-this-rooms-batch",
